@@ -289,7 +289,7 @@ def run(prop, tier, replay=None):
     rep.extra["cases_per_algo"] = per_algo
     rep.cov["states"] = max(rep.cov["states"], 1)
     rep.cov["transitions"] = max(rep.cov["transitions"], 1)
-    rep.cov["samples"] = [{k: traces[i][k] for k in ("algo", "p", "day", "now", "U", "pre", "out")} for i in (0, 3)]
+    rep.cov["samples"] = [{k: traces[i][k] for k in ("algo", "p", "day", "now", "U", "pre", "out")} for i in (0, 3) if i < len(traces)]
     rep.extra["sources"] = __import__("btload").source_info()
     rep.assumptions = ["universes of 3-4 tickers x 5-6 dates (consecutive or with gaps), cells in {NaN, -1, 0, 1..8}, late listings",
                        "parameter combination include_no_data=True with include_negative=False is not generated (its meaning is ambiguous in the docs)",
